@@ -491,6 +491,8 @@ class XCopyUnit(_ListUnit):
         # layout it does have: refused (no code borrows the layout of another one)
         for code in sorted(self.seg):
             out.append({"set": s, "how": list(how), "refusal": "segment-code-without-layout", "keys_of": code})
+        # every PERIPHERAL DEVICE TYPE code 00h..1Fh that this revision's table does not list: refused
+        out.append({"set": s, "how": list(how), "refusal": "device-type-not-in-this-revision"})
         return out
 
     def case_id(self, case):
@@ -625,6 +627,27 @@ class XCopyUnit(_ListUnit):
             s = {k: 0 for k in self.seg[case["code"]].fields}
             s["descriptor_type_code"] = case["code"]
             s[case["key"]] = 1
+        elif what == "device-type-not-in-this-revision":
+            listed = {0x00, 0x01, 0x03, 0x05, 0x0E} | (set() if self.lid4 else {0x04, 0x07})
+            accepted = []
+            for code in range(32):
+                if code in listed:
+                    continue
+                t = dict(good_t)
+                t["peripheral_device_type"] = code
+                try:
+                    if self.lid4:
+                        X.call(K, op, 0, 0, 0, 0, 0, 0, [t], [dict(good_s)], bytearray())
+                    else:
+                        X.call(K, op, 0, 0, 0, 0, [t], [dict(good_s)], bytearray())
+                    accepted.append(code)
+                except V.EngineSignal:
+                    raise
+                except (ValueError, NotImplementedError):
+                    pass
+                except Exception as ex:
+                    accepted.append((code, type(ex).__name__))
+            return accepted
         elif what == "segment-code-without-layout":
             accepted = []
             for code in range(256):
@@ -650,6 +673,10 @@ class XCopyUnit(_ListUnit):
         return X.call(K, op, 0, 0, 0, 0, [t], [s], bytearray())
 
     def ensures(self, case, a, out, X):
+        if case.get("refusal") == "device-type-not-in-this-revision":
+            acc = out.value if out.kind == "return" else ["the sweep itself raised %s" % out.describe()[:40]]
+            yield "C17", "every-device-type-code-this-revision-does-not-list-is-refused%s" % (" (accepted: %s)" % ", ".join("%02Xh" % c if isinstance(c, int) else str(c) for c in acc[:6]) if acc else ""), not acc
+            return
         if case.get("refusal") == "segment-code-without-layout":
             acc = out.value if out.kind == "return" else ["the sweep itself raised %s" % out.describe()[:40]]
             yield "C17", "every-type-code-without-a-layout-is-refused%s" % (" (accepted: %s)" % ", ".join("%02Xh" % c if isinstance(c, int) else str(c) for c in acc[:6]) if acc else ""), not acc
